@@ -114,6 +114,36 @@ fn stage_a() -> Vec<String> {
     out
 }
 
+/// Stage R: small programs whose function return types depend on the functions' own inferred
+/// types (the checker infers them by iterating before the bodies are checked): every operator
+/// and method shape around a self call, a mutual call and a call of an outer function, with
+/// literals of every type on the other side. The inference must terminate on all of them.
+fn stage_r() -> Vec<String> {
+    let shapes = [
+        "C na L", "L na C", "C pass L", "C small pass L", "C add L", "L add C", "C minus L", "C times L", "C divide L", "C mod L", "C and L", "C or L",
+        "not C", "minus C", "[C]", "[C, L]", "C[0]", "[L][C]", "C.len()", "C.abs()", "C.trim()", "C.pop()", "to_string(C)", "typeof(C)", "C na C", "C add C",
+        "not (C na L)", "minus (C add L)", "(C na L) na L", "(C add L) add L", "(C and L) na L", "C na (C na L)",
+    ];
+    let lits = ["1", "\"s\"", "true", "null", "[1]"];
+    let mut out = Vec::new();
+    for sh in shapes {
+        for l in lits {
+            let self_call = sh.replace('C', "f()").replace('L', l);
+            out.push(format!("do f() start\nreturn {self_call}\nend\nshout(f())\n"));
+            out.push(format!("do f() start\nif to say (true) start\nreturn {l}\nend\nreturn {self_call}\nend\n"));
+            let a = sh.replace('C', "g()").replace('L', l);
+            let b = sh.replace('C', "f()").replace('L', l);
+            out.push(format!("do f() start\nreturn {a}\nend\ndo g() start\nreturn {b}\nend\n"));
+            out.push(format!("do f() start\nreturn {a}\nend\ndo g() start\nreturn f()\nend\ndo h() start\nreturn g()\nend\n"));
+            out.push(format!("do f(p) start\nreturn {}\nend\n", sh.replace('C', "f(p)").replace('L', l)));
+            out.push(format!("start\ndo f() start\nreturn {self_call}\nend\nend\n"));
+        }
+    }
+    out.sort();
+    out.dedup();
+    out
+}
+
 fn valid_program(rng: &mut Rng) -> (String, Vec<Tok>) {
     let profile = *rng.pick(&[Profile::Core, Profile::Scope, Profile::Array, Profile::Mem, Profile::Dead]);
     let (prog, _) = genp::generate(rng, profile);
@@ -211,6 +241,19 @@ pub fn run(ctx: &mut Ctx) {
                 let lo = idx as usize * 64;
                 for src in &cells[lo..(lo + 64).min(cells.len())] {
                     run_one(ctx, idx, src, "adjacency");
+                }
+            }
+        }
+        "R" => {
+            let cells = stage_r();
+            ctx.out.extra.insert("stage_r_size".into(), json!(cells.len()));
+            let batches = cells.len().div_ceil(16) as u64;
+            let idxs: Vec<u64> = ctx.indices().filter(|i| *i < batches).collect();
+            for idx in idxs {
+                ctx.out.begin(idx);
+                let lo = idx as usize * 16;
+                for src in &cells[lo..(lo + 16).min(cells.len())] {
+                    run_one(ctx, idx, src, "self-referential-inference");
                 }
             }
         }
